@@ -6,7 +6,7 @@
 (* scalars, the secp256k1 order, and the primitives bound to the oracle    *)
 (* table recorded with each event (Oracle.tla).                            *)
 (***************************************************************************)
-EXTENDS Bytes, Base58, ExtKey, KeyCodec, Ripemd, Oracle, Json, IOUtils, TLC
+EXTENDS Bytes, Base58, ExtKey, KeyCodec, Ripemd, Bip85, Oracle, Json, IOUtils, TLC
 
 K32 == INSTANCE Bip32 WITH KeyLen <- 32, IdxLen <- 4, HardMin <- 128, N <- SecpN,
                            Hmac <- HmacSha512, PtC <- PtC, PtAdd <- PtAddC, H160 <- Hash160
@@ -368,6 +368,40 @@ V_Construct(e) ==
              ELSE "ok"
 
 ---------------------------------------------------------------------------
+\* C12 BIP85 (and the BIP85 clause of C18 under a substituted PRF)
+\* value of an application as a code-point string: [out, str, why]
+Bip85Value(e, master, app, p, ix) ==
+  LET po == PathOf(app, p, ix)
+  IN IF ~po.ok THEN [out |-> "reject", str |-> <<>>, why |-> "parameter-or-index-out-of-range"]
+     ELSE
+     LET d == K32!DerivePath(e, master, po.path)
+     IN IF d.out # "ok" THEN [out |-> "invalid", str |-> <<>>, why |-> d.why]
+        ELSE
+        LET E == HmacSha512(e, EntropyKey, d.node.k)
+        IN CASE app = "mnemonic" ->
+                  LET s == B39!Sentence(e, Take(E, Width(app, p)))
+                  IN [out |-> "ok", why |-> "ok",
+                      str |-> B39!JoinWords([i \in 1..Len(s.idx) |-> WordOf(e, s.idx[i])])]
+             [] app = "wif" ->
+                  IF ~ValidScalar32(Take(E, 32)) THEN [out |-> "invalid", str |-> <<>>, why |-> "wif-secret-out-of-range"]
+                  ELSE LET pl == WifPayload(Take(E, 32), TRUE, "main")
+                       IN [out |-> "ok", why |-> "ok", str |-> EncCheck(pl, Hash256(e, pl))]
+             [] app = "xprv" ->
+                  IF ~ValidScalar32(Drop(E, 32)) THEN [out |-> "invalid", str |-> <<>>, why |-> "xprv-secret-out-of-range"]
+                  ELSE LET n == [prv |-> TRUE, k |-> Drop(E, 32), c |-> Take(E, 32), depth |-> 0,
+                                 idx |-> Zeros(4), pfp |-> Zeros(4), net |-> "main"]
+                       IN [out |-> "ok", why |-> "ok", str |-> XprvStr(e, n, Ver("prv", "main", "bip44"))]
+             [] app = "hex" -> [out |-> "ok", why |-> "ok", str |-> Hex(Take(E, p))]
+             [] app = "pwd" -> [out |-> "ok", why |-> "ok", str |-> Take(Base64(E), p)]
+
+V_Bip85(e) ==                \* e.inp = [master, app, p, ix]
+  LET r == Bip85Value(e, InPrv(e, e.inp.master), e.inp.app, e.inp.p, e.inp.ix)
+  IN IF r.out # "ok" THEN (IF Raised(e) THEN "ok" ELSE "bip85-" \o e.inp.app \o "-value-for-" \o r.why)
+     ELSE IF Raised(e) THEN "bip85-" \o e.inp.app \o "-raised-on-valid"
+     ELSE IF e.res.v # r.str THEN "bip85-" \o e.inp.app \o "-value"
+     ELSE "ok"
+
+---------------------------------------------------------------------------
 Verdict(e) ==
   CASE e.act = "Master" -> V_Master(e)
     [] e.act = "CkdPriv" -> V_CkdPriv(e)
@@ -390,6 +424,7 @@ Verdict(e) ==
     [] e.act = "WordList" -> V_WordList(e)
     [] e.act = "Seed" -> V_Seed(e)
     [] e.act = "Construct" -> V_Construct(e)
+    [] e.act = "Bip85" -> V_Bip85(e)
     [] OTHER -> "unknown-act"
 
 TraceInit == l = 1
